@@ -139,6 +139,11 @@ def h_timer(cfg):
             fail('c19.no-raise', 'Timer() raised %s: %s' % (type(ex).__name__, ex))
             return
         ref.created(T)
+        if cfg.get('twin'):
+            # a second, independent one-shot timer in the same environment that nobody stops or restarts
+            T2 = num('T2')
+            box['twin_due'] = env.now + T2
+            box['twin'] = Timer(env, T2, lambda *a: box.setdefault('twin_fired', []).append((env.now, a)), args=[7])
         for act in ctrl:
             yield env.timeout(num('g', lo_strict=False))
             if act == 'stop':
@@ -157,6 +162,12 @@ def h_timer(cfg):
         fail('c19.no-raise', 'run() raised %s: %s' % (type(ex).__name__, ex))
         return
     ref.finish()
+    if 'twin' in box:
+        tf = box.get('twin_fired', [])
+        check('c19.instances-independent', len(tf) == 1 and tf[0][1] == (7,), str(tf)[:80])
+        if len(tf) == 1:
+            check('c19.instances-independent', eq(tf[0][0], box['twin_due']), 'twin fired at another instant')
+        cover('two-instances')
     cover('nontrivial')
 
 
@@ -198,6 +209,12 @@ def jobs(tier, seed):
                 if auto:
                     cfg['max_fire'] = 3 if tier == 'quick' else 4
                 js.append({'harness': 'timer', 'cfg': cfg, 'weight': 20 if auto else 5, 'opts': opts})
+    # two timers in one environment: controlling one never affects the other
+    for auto, ctrl, cb in ((False, ['stop'], {}), (False, ['restart'], {1: 'restart'}), (True, ['restart', 'stop'], {})):
+        cfg = {'auto': auto, 'ctrl': ctrl, 'cb': {str(k): v for k, v in cb.items()}, 'argmode': 'list', 'sorts': 'int', 'twin': True}
+        if auto:
+            cfg['max_fire'] = 3
+        js.append({'harness': 'timer', 'cfg': cfg, 'weight': 20})
     for auto, ctrl, cb in ((False, ['restart'], {}), (True, [], {1: 'restart', 3: 'stop'})):
         for argmode, kw in (('tuple', False), ('list', True), ('none', True)):
             cfg = {'auto': auto, 'ctrl': ctrl, 'cb': {str(k): v for k, v in cb.items()}, 'argmode': argmode, 'kwargs': kw,
@@ -212,7 +229,7 @@ META = {
     'rule': 'one case = one feasible path of a (timer, controller, callback) script: an order-type of creation, expiry, '
             'stop and restart instants',
     'required_labels': ['c19.fires-at-expiry', 'c19.args', 'c19.not-overdue'],
-    'required_covers': ['nontrivial', 'fired', 'stop', 'restart-pending', 'restart-from-callback'],
+    'required_covers': ['nontrivial', 'fired', 'stop', 'restart-pending', 'restart-from-callback', 'two-instances'],
     'bounds': {'quick': '16 scripts: one-shot and auto-restart, <= 2 controller calls, <= 2 callback-issued calls; all instants, timeouts, '
                         'taus symbolic and unbounded; auto-restart timers: input regions with more than 3 firings are outside the bound',
                'thorough': '30 scripts, <= 4 controller calls; auto-restart <= 4 firings'},
